@@ -141,13 +141,22 @@ def call_outcomes(self: Interp, node: ast.Call, st: State):
         if nm == "implies":
             a = self.truth(self.eval(node.args[0], st), st)
             if not isinstance(a, bool) and self.in_contract:
-                # a guard that is impossible on this path makes the implication true without evaluating the body
-                n0 = len(st.pc)
-                st.assume(a)
-                ok = self.feasible(st, 500)
-                del st.pc[n0:]
-                if not ok:
-                    return [(st, True, None)]
+                # a guard that is impossible on this path makes the implication true without evaluating the body;
+                # the (costly) feasibility query is only made when the body cannot be evaluated as it stands
+                nf, npc = len(st.facts), len(st.pc)
+                try:
+                    b = self.truth(self.eval_guarded(node.args[1], st, a), st)
+                    return [(st, zimplies(a, b), None)]
+                except Unsupported:
+                    del st.facts[nf:]
+                    del st.pc[npc:]
+                    n0 = len(st.pc)
+                    st.assume(a)
+                    ok = self.feasible(st, 500)
+                    del st.pc[n0:]
+                    if not ok:
+                        return [(st, True, None)]
+                    raise
             b = self.truth(self.eval_guarded(node.args[1], st, a), st) if not isinstance(a, bool) else (
                 self.truth(self.eval(node.args[1], st), st) if a else True)
             return [(st, zimplies(a, b), None)]
@@ -615,7 +624,7 @@ _hq_cache: dict = {}
 def has_quantifier(e) -> bool:
     k = e.get_id()
     if k in _hq_cache:
-        return _hq_cache[k]
+        return _hq_cache[k][1]
     todo, seen, found = [e], set(), False
     while todo:
         x = todo.pop()
@@ -627,17 +636,23 @@ def has_quantifier(e) -> bool:
             found = True
             break
         todo.extend(x.children())
-    _hq_cache[k] = found
+    _hq_cache[k] = (e, found)
     return found
 
 
-def feasible(self: Interp, st: State, timeout_ms=1500) -> bool:
-    """Path pruning only: quantified assumptions are dropped (over-approximates feasibility, hence sound)."""
+def feasible(self: Interp, st: State, timeout_ms=1500, focus=None) -> bool:
+    """Path pruning only: quantified assumptions are dropped (over-approximates feasibility, hence sound).
+    With `focus` (the constraint just added to a state known to be feasible) only the premises in the symbol closure
+    of the focus are handed to the solver - again an over-approximation."""
     s = z3.Solver()
     s.set("timeout", timeout_ms)
-    for a in st.assumptions():
-        if not has_quantifier(a):
-            s.add(a)
+    qf = [a for a in st.assumptions() if is_z3(a) and not has_quantifier(a)]
+    if focus is not None and is_z3(focus):
+        from .rel import relevant
+        qf = relevant(qf, focus, 10 ** 6)
+        s.add(focus)
+    for a in qf:
+        s.add(a)
     return s.check() != z3.unsat
 
 
